@@ -112,7 +112,7 @@ pub fn run(ctx: &mut Ctx) {
         ctx.oracle_runs += 1;
         let got = from_le(k);
         if got != Some(spec(&k)) {
-            ctx.fail("two_value_rule", format!("{{\"key\":\"{}\",\"class\":\"{}\",\"got\":\"{:?}\",\"want\":\"{:?}\"}}", hex(&k), cls, got.map(|r| r.map(|k| hex(&k))), spec(&k).map(|k| hex(&k))));
+            ctx.fail("two_value_rule", format!("{{\"key\":\"{}\",\"class\":\"{}\",\"got\":{},\"want\":{}}}", hex(&k), cls, jstr(&format!("{:?}", got.map(|r| r.map(|k| hex(&k))))), jstr(&format!("{:?}", spec(&k).map(|k| hex(&k))))));
         }
     };
     for _ in 0..n / 2 { let k = rng.arr(); check(ctx, k, "random"); }
